@@ -110,7 +110,7 @@ structure HeadOK (T : Nat) (w : Wave) (c p0 : Nat) (row : Row) (s : St) : Prop w
   sgn : s.sgn = invertSign s.pv
   tr : IsFirstExtremum w c (flipSign s.pv) s.p T s.tr
   trv : s.trv = flipSign s.pv * smp w c s.tr * s.sgn
-  arr : s.arr = invertRow row s.pv ∨ (s.arr = row ∧ StaysHigh T w c p0)
+  arr : s.arr = invertRow row s.pv
   swap : (s.p = p0 ∧ ¬ ∃ q, WeaklyPositive T w c p0 q) ∨ WeaklyPositive T w c p0 s.p
 
 theorem ratio_iff {v t : ℚ} (ht : t ≠ 0) : qabs (v / t) ≤ 3 / 2 ↔ 2 * |v| ≤ 3 * |t| := by
@@ -152,25 +152,15 @@ theorem head_spec (T : Nat) (w : Wave) (hR : Rect T w) (hT : 0 < T) (hw : w ≠ 
     simp only at h2 hF2 hE2
     have hWP : WeaklyPositive T w pk.trace pk.p tr1 := by
       refine ⟨by rw [← hv0]; exact hpos, by rw [← hfs]; exact hE1, by rw [← hv0]; exact hratio⟩
-    have hsr : swapRow { trace := pk.trace, p := pk.p, pv := pk.v, sgn := invertSign pk.v, tr := tr1, trv := m1 * invertSign pk.v, real := row, arr := invertRow row pk.v } = .ok { trace := pk.trace, p := tr1, pv := smp w pk.trace tr1, sgn := invertSign (smp w pk.trace tr1), tr := tr2, trv := m2 * invertSign (smp w pk.trace tr1), real := row, arr := row } := by
+    have hsr : swapRow { trace := pk.trace, p := pk.p, pv := pk.v, sgn := invertSign pk.v, tr := tr1, trv := m1 * invertSign pk.v, real := row, arr := invertRow row pk.v } = .ok { trace := pk.trace, p := tr1, pv := smp w pk.trace tr1, sgn := invertSign (smp w pk.trace tr1), tr := tr2, trv := m2 * invertSign (smp w pk.trace tr1), real := row, arr := invertRow row (smp w pk.trace tr1) } := by
       unfold swapRow
-      simp only [htrv, h2, ok_bind, pure_eq_ok]
+      simp only [htrv, h2]
     refine ⟨_, hloc, hrow, hsr, ?_⟩
-    · refine ⟨rfl, rfl, hE1.1, htr1, rfl, fun _ => htne, rfl, hE2, by simp [hm2], ?_, Or.inr hWP⟩
-      by_cases hpos2 : 0 < smp w pk.trace tr1
-      · right
-        refine ⟨rfl, by rw [← hv0]; exact hpos, ?_⟩
-        intro t h1 h2
-        have := hE1.2.2.1 t h1 h2
-        rw [hfs] at this
-        rw [abs_of_pos hpos, abs_of_pos hpos2, hv0] at hratio
-        linarith
-      · left
-        simp [invertRow, hpos2]
+    · exact ⟨rfl, rfl, hE1.1, htr1, rfl, fun _ => htne, rfl, hE2, by simp [hm2], rfl, Or.inr hWP⟩
   · -- no swap
     rw [if_neg hsw]
     refine ⟨_, hloc, hrow, rfl, ?_⟩
-    refine ⟨rfl, rfl, le_refl _, hp0, hv0, ?_, rfl, hE1, by simp [hm1], Or.inl rfl, Or.inl ⟨rfl, ?_⟩⟩
+    refine ⟨rfl, rfl, le_refl _, hp0, hv0, ?_, rfl, hE1, by simp [hm1], rfl, Or.inl ⟨rfl, ?_⟩⟩
     · intro hp hz
       have := hloc.2.2.2.2 0 hp
       have hz' : pk.v = 0 := hz
